@@ -20,7 +20,7 @@ import random
 from . import common
 
 MODULES = ["CoapVerif.Props.C11", "CoapVerif.Findings.C11"]
-GENERATED = ["WaitShape.lean"]
+GENERATED = ["WaitShape.lean", "Dedup.lean"]
 
 
 def _install_local_known():
@@ -181,14 +181,18 @@ def callback_family(rng=None):
         combos = [rng.choice(combos) for _ in range(6)]
     for tr, q, x, m in combos:
         ans = "sep:7" if (tr == "udp" and x == "n") else "resp:7"
-        more = " ".join(["note:1"] * m)
-        out.append("scn %s %d 0 0 watch:1:%s7 resp:1 note:1 %s %s sleep:31000 settle" % (tr, q, x, more, ans))
-        out.append("scn %s %d 0 0 watch:1:%s7 resp:1 note:1 arrive:1:r %s arrive:2:r %s note:1 sleep:31000 settle" % (tr, q, x, more, ans))
+        more = "&".join(["note:1"] * m)
+        # the further notifications and the answer are sent without waiting for quiescence in between: a goroutine that waits for a
+        # lock is not "idle" for synctest, and a confirmable request's second hand-over (on its ACK) can still rescue the connection
+        out.append("scn %s %d 0 0 watch:1:%s7 resp:1 note:1 %s&%s sleep:31000 settle" % (tr, q, x, more, ans))
+        out.append("scn %s %d 0 0 watch:1:%s7 resp:1 note:1 arrive:1:r&%s&arrive:2:r&%s&note:1 sleep:31000 settle" % (tr, q, x, more, ans))
+        if tr == "udp" and x == "g":
+            out.append("scn udp %d 0 0 watch:1:g7 resp:1 note:1 ack:7 %s&sep:7 sleep:31000 settle" % (q, more))
     # two observations: a notification of the other one in between; a nested ping from the callback
-    out.append("scn tcp 16 0 0 watch:1:g7 resp:1 watch:2:r resp:2 note:1 note:2 note:1 resp:7 note:2 sleep:31000 settle")
-    out.append("scn udp 16 0 0 watch:1:g7 resp:1 watch:2:r resp:2 note:1 note:2 note:1 resp:7 note:2 sleep:31000 settle")
-    out.append("scn tcp 16 0 0 watch:1:p resp:1 note:1 note:1 pong sleep:11000 settle")
-    out.append("scn udp 16 0 0 watch:1:p resp:1 note:1 note:1 pong sleep:11000 settle")
+    out.append("scn tcp 16 0 0 watch:1:g7 resp:1 watch:2:r resp:2 note:1 note:2&note:1&resp:7&note:2 sleep:31000 settle")
+    out.append("scn udp 16 0 0 watch:1:n7 resp:1 watch:2:r resp:2 note:1 note:2&note:1&sep:7&note:2 sleep:31000 settle")
+    out.append("scn tcp 16 0 0 watch:1:p resp:1 note:1 note:1&pong sleep:11000 settle")
+    out.append("scn udp 16 0 0 watch:1:p resp:1 note:1 note:1&pong sleep:11000 settle")
     return out
 
 
@@ -269,6 +273,42 @@ def sametoken_family(rng=None):
     return out
 
 
+def dedup_family(rng=None):
+    """While a handler is busy (a nested request, a confirmable write) the peer re-sends the very datagram that is being handled
+    (same message ID, same token: it has not seen an ACK / a reply yet), and again after the handler has returned.  The handler
+    runs once; the copies are answered from the reply cache.  Confirmable requests, and non-confirmable ones whose handler
+    answers (a copy of a non-confirmable request that left no reply is a new request for this library).  The copy and the message
+    that lets the handler finish are sent without waiting for quiescence in between (see `callback_family`)."""
+    out = []
+    for q in ((16, 0) if rng is None else (rng.choice([0, 1, 16]),)):
+        out += [
+            "scn udp %d 0 0 arrivem:1:w1:con:+7000 dup:1&yield&ack:1 dup:1 settle" % q,
+            "scn udp %d 0 0 arrivem:1:a+w1:non:+7000 dup:1&yield&ack:1 dup:1 settle" % q,
+            "scn udp %d 0 0 arrivem:1:w1:con:+7000 dup:1&ack:1 dup:1 settle" % q,
+            "scn udp %d 0 0 arrivem:1:w1:con:+7000 dup:1&dup:1&yield&ack:1 arrive:2:r dup:1 settle" % max(q, 2),
+            "scn udp %d 0 0 arrivem:1:g1:con:+7000 resp:1 dup:1 dup:1 arrive:2:r dup:1 settle" % q,
+            "scn udp %d 0 0 arrivem:1:a+g1:non:+7000 resp:1 dup:1 settle" % q,
+            "scn udp %d 0 0 arrivem:1:r:con:+7000 dup:1 arrivem:2:a:non:+7001 dup:2 dup:1 settle" % q,
+        ]
+    return out
+
+
+# F36 (found here, fixed in /repo ad8bf20): the per-message-ID lock of `handleReq` was held over the handler and a copy of the request
+# that is being handled, taken by the replacement loop, waited for it: when the handler's nested request was answered by a *separate*
+# response (its ACK came before the copy, or the nested request is non-confirmable), nothing asked for another loop and the answer
+# stayed in the queue behind the copy until the nested request's deadline (real sockets: docs/notes/trials/c11/duplock_demo_test.go).
+# Now the copy hands the loop over before it waits (`Generated.Dedup.copyWaitsAfterHandover`, `copy_waits_after_handover`).  These
+# lines keep watching it; a relapse is reported as C11:nested-stall:dup-lock.
+DUPLOCK = ["scn udp 16 0 0 arrivem:1:g1:con:+7000 ack:1 dup:1&yield&sep:1 sleep:31000 settle"]
+# … and when the answer is piggybacked but arrives right behind the copy: the hand-over the ACK triggers comes before the replacement
+# loop has taken the copy (scheduling-dependent)
+DUPLOCK_THOROUGH = ["scn udp 16 0 0 arrivem:1:n1:con:+7000 dup:1&sep:1 sleep:31000 settle",
+                    "scn udp 0 0 0 arrivem:1:a+n1:non:+7000 dup:1&sep:1 sleep:31000 settle",
+                    "scn udp 16 0 0 arrivem:1:g1:con:+7000 dup:1&resp:1 sleep:31000 settle",
+                    # queue size 0: a second copy blocks the socket reader behind the first, so not even the ACK is read
+                    "scn udp 0 0 0 arrivem:1:w1:con:+7000 dup:1&dup:1&ack:1 sleep:31000 settle"]
+
+
 # one discovery of a real udp.Server over a loopback socket each (real time, about 1.6 s per line): the receiver callback issues a
 # blocking request on the responder's connection; order of the responder's messages after it
 DISCOVERY = ["disc ack-d2-sep", "disc d2-ack-sep", "disc ack-sep-d2", "disc d2-pig"]
@@ -320,7 +360,11 @@ def corpus_lines():
 def gen_lines(ctx):
     rng = random.Random(ctx.seed * 7727 + 11)
     L = [(l, True) for l in corpus_lines() + FIXED + stale_family() + requeue_family() + callback_family() + framesize_family()
-         + empty_family() + midclash_family() + sametoken_family() + DISCOVERY]
+         + empty_family() + midclash_family() + sametoken_family() + dedup_family() + DUPLOCK + DISCOVERY]
+    if ctx.tier == "thorough":
+        L += [(l, True) for l in DUPLOCK_THOROUGH]
+    for _ in range(20 if ctx.tier == "thorough" else 2):
+        L += [(l, True) for l in dedup_family(rng)]
     for _ in range(20 if ctx.tier == "thorough" else 2):
         L += [(l, True) for l in midclash_family(rng) + sametoken_family(rng)]
     for _ in range(20 if ctx.tier == "thorough" else 2):
@@ -382,7 +426,7 @@ def run_resilient(ctx, art, lines, tag):
             return None
         if out and out[-1] == "hang":
             if confirmed < 3:               # once three hangs are confirmed the defect is established; later ones are taken as reported
-                again = _run_once(ctx, art["test"], [rest[len(out) - 1]], tag + "h", hang_s=30)
+                again = _run_once(ctx, art["test"], [rest[len(out) - 1]], tag + "h", hang_s=6)
                 if again and again[0] != "hang":
                     res[-1] = again[0]      # slow machine, not a hang
                 else:
@@ -406,8 +450,14 @@ def evaluate(ctx, art, lines, tag="x"):
     if impl is None or len(impl) != len(lines):
         return None
     rc, model, _ = common.pipe_lines([art["driver"], "model"], lines)
-    rc2, judge, _ = common.pipe_lines([art["driver"], "judge"], [l + " | " + o for l, o in zip(lines, impl)])
     rc3, cls, _ = common.pipe_lines([art["driver"], "classify"], lines)
+    if rc3 or len(cls) != len(lines):
+        ctx.broken.append(("model", "C11 driver run failed", ""))
+        return None
+    # the dispatch-order clause is judged where at most one loop can be dispatching at any moment (third field of the classification)
+    rc2, judge, _ = common.pipe_lines([art["driver"], "judge"],
+                                      [l + " | " + o + (" | two" if c.endswith("|two") else "") for l, o, c in zip(lines, impl, cls)])
+    cls = [c.rsplit("|", 1)[0] if c.endswith(("|one", "|two")) else c for c in cls]
     if rc or rc2 or rc3 or len(model) != len(lines) or len(judge) != len(lines) or len(cls) != len(lines):
         ctx.broken.append(("model", "C11 driver run failed", ""))
         return None
@@ -469,7 +519,7 @@ def explore(ctx, art):
         if impl == "hang":
             # confirmed by a second run on its own with a 60 s limit
             ctx.violations.append(common.Violation(
-                "nested-stall", "C11:nested-stall:hang:" + line,
+                "nested-stall", "C11:nested-stall:dup-lock" if line in DUPLOCK + DUPLOCK_THOROUGH else "C11:nested-stall:hang:" + line,
                 "%s: the history never ends: a goroutine of the connection waits for a lock (not for a channel or the clock), so under "
                 "synctest the bubble is never idle and virtual time stands still; on a real clock the messages queued behind it are not "
                 "processed until the lock holder's own deadline" % line, {"input": [line], "observed": impl}))
